@@ -54,6 +54,11 @@ const GEN_LAWS: &[(&str, &str)] = &[
     ("range-multi", "cap(limit(12; range($a, $b; $b, $c; 1))) == cap(limit(12; ($a, $b) as $x | ($b, $c) as $y | range($x; $y; 1)))"),
     ("while", "cap(limit(8; $a | while(. != $b; . + $c))) == cap(limit(8; $a | def rec: if . != $b then ., (. + $c | rec) else empty end; rec))"),
     ("until", "if ($c | length) == 0 then true else cap($a | until(. == $b or length > 6; . + $c)) == cap($a | def rec: if . == $b or length > 6 then . else . + $c | rec end; rec) end"),
+    ("until-multi-update", "cap(limit(12; 1 | until(. >= 3; . + 1, . + 2))) == cap(limit(12; 1 | def rec: if . >= 3 then . else (. + 1, . + 2) | rec end; rec))"),
+    ("until-multi-cond", "cap(limit(12; 2 | until(. >= 3, . >= 4; . + 1))) == cap(limit(12; 2 | def rec: if (. >= 3, . >= 4) then . else . + 1 | rec end; rec))"),
+    ("until-unfold", "cap(limit(12; 1 | until(. >= 3; . + 1, . + 2))) == cap(limit(12; 1 | if . >= 3 then . else (. + 1, . + 2) | until(. >= 3; . + 1, . + 2) end))"),
+    ("while-multi", "cap(limit(12; 1 | while(. < 3; . + 1, . + 2))) == cap(limit(12; 1 | def rec: if . < 3 then ., ((. + 1, . + 2) | rec) else empty end; rec))"),
+    ("recurse-cond-multi", "cap(limit(12; 1 | recurse(. + 1, . + 2; . < 4))) == cap(limit(12; 1 | recurse((. + 1, . + 2) | select(. < 4))))"),
     ("recurse1", "cap(limit(9; [$a, $b] | recurse(.[]?))) == cap(limit(9; [$a, $b] | ., (.[]? | recurse(.[]?))))"),
     ("recurse0", "cap([$a, [$b, {c: $c}]] | [recurse]) == cap([$a, [$b, {c: $c}]] | [recurse(.[]?)])"),
     ("dotdot", "cap([$a, [$b, {c: $c}]] | [..]) == cap([$a, [$b, {c: $c}]] | [recurse])"),
